@@ -15,6 +15,10 @@ Decided structurally (for all histories of runs at once):
         of unittest.mock.patch) must restore the saved original on every exit, including the
         exceptional exit of a `yield` in a generator-based context manager.
   C18.4 the loader overrides nothing that bypasses importlib's source-mtime/size validation.
+  C18.8 no in-memory memo of compiled code that is shared between hooks and blind to the typechecker: a keyed store made by a
+        loader method into a class-level / module-level container that the loader also reads must have the loader's checker
+        (the object or its hash) in its key; otherwise code instrumented for one typechecker is handed to a hook installed with
+        another -- and then written to the other hook's cache tag on disk.
 Not decided: importlib's own cache validation (trusted base).
 """
 from __future__ import annotations
@@ -47,6 +51,7 @@ def run(ctx: RuleContext):
 
     ctx.sub(check_all_returns_instrumented, ctx, "C18.6")
     ctx.sub(check_nothing_imported_while_compiling, ctx)
+    ctx.sub(check_no_checker_blind_code_memo, ctx)
 
 
 def check_tag(ctx):
@@ -405,3 +410,73 @@ def check_nothing_imported_while_compiling(ctx):
                                     "instrumented tag: what that code imports (the typechecker's own package and its imports) is cached un-instrumented under the instrumented tag")
     ctx.counters["calls_under_the_tag"] = n_calls
     ctx.ok("C18.7", s2c.qualname, f"{len(fns)} functions run from source_to_code (inside the patched region of get_code), {n_calls} calls: none imports / executes a module named at run time")
+
+
+# ------------------------------------------------------------------------ C18.8
+_MUTABLE_CTORS = {"dict", "list", "set", "defaultdict", "OrderedDict", "WeakValueDictionary", "WeakKeyDictionary", "LRUCache", "Counter", "deque"}
+
+
+def _is_mutable_literal(v) -> bool:
+    if isinstance(v, (ast.Dict, ast.List, ast.Set)):
+        return True
+    return isinstance(v, ast.Call) and norm(v.func).split(".")[-1] in _MUTABLE_CTORS
+
+
+def check_no_checker_blind_code_memo(ctx):
+    m = ctx.model
+    ld = m.cls("_import_hook._JaxtypingLoader")
+    mod = m.module("_import_hook")
+    shared_attrs = {}
+    for c in m.classes.values():
+        if c.module.short != "_import_hook":
+            continue
+        for st in c.node.body:
+            if isinstance(st, ast.Assign) and len(st.targets) == 1 and isinstance(st.targets[0], ast.Name) and _is_mutable_literal(st.value):
+                shared_attrs[st.targets[0].id] = c.qualname
+            if isinstance(st, ast.AnnAssign) and isinstance(st.target, ast.Name) and st.value is not None and _is_mutable_literal(st.value):
+                shared_attrs[st.target.id] = c.qualname
+    shared_mod = {nm for nm, vals in mod.assigns.items() if vals and all(v is not None and _is_mutable_literal(v) for v in vals)}
+    ctx.counters["shared_containers_in_hook_module"] = len(shared_attrs) + len(shared_mod)
+    ctx.floor("C18.8", "shared_containers_in_hook_module", 1)  # Typechecker.lookup
+    n = 0
+    for name, meth in sorted(ld.methods.items()):
+        ctx.saw(meth)
+        selfn = meth.params[0] if meth.params else "self"
+
+        def is_shared(base):
+            if isinstance(base, ast.Attribute) and base.attr in shared_attrs:
+                # an instance attribute of the same name set in the loader's own __init__ shadows nothing here: class-level containers
+                # are reached through any instance
+                return f"{shared_attrs[base.attr]}.{base.attr}"
+            if isinstance(base, ast.Name) and base.id in shared_mod and m.resolve_name(meth, base.id).kind == "modvar":
+                return f"_import_hook.{base.id}"
+            return None
+
+        stores = []
+        for st in walk_scope(meth.node):
+            if isinstance(st, ast.Assign):
+                for t in st.targets:
+                    if isinstance(t, ast.Subscript) and is_shared(t.value):
+                        stores.append((st, t.value, t.slice, is_shared(t.value)))
+            if isinstance(st, ast.Call) and isinstance(st.func, ast.Attribute) and st.func.attr == "setdefault" and st.args and is_shared(st.func.value):
+                stores.append((st, st.func.value, st.args[0], is_shared(st.func.value)))
+        for st, base, key, label in stores:
+            n += 1
+            btxt = norm(base)
+            reads = [x for x in walk_scope(meth.node) if isinstance(x, (ast.Subscript, ast.Attribute, ast.Name)) and isinstance(getattr(x, "ctx", None), ast.Load) and norm(x) == btxt]
+            # (the store itself loads the container once)
+            if len(reads) <= 1 and not any(isinstance(x, ast.Compare) and any(norm(c_) == btxt for c_ in x.comparators) for x in walk_scope(meth.node)):
+                ctx.ok("C18.8", meth.qualname, f"`{short(st, 60)}` writes the shared `{label}`, which this method never reads back")
+                continue
+            ktxt = norm(key)
+            if isinstance(key, ast.Name) and key.id not in meth.params:
+                from . import c05
+
+                ktxt = " ".join(norm(d[1]) for d in c05._assignments_to(meth, key.id) if d[1] is not None) or ktxt
+            if "_typechecker" in ktxt or "get_hash" in ktxt or "typechecker" in ktxt:
+                ctx.ok("C18.8", meth.qualname, f"memo `{label}` is keyed with the loader's checker (`{ktxt[:60]}`)")
+            else:
+                ctx.bad("C18.8", meth, st, f"`{short(st, 60)}` memoises per-checker results of this loader in `{label}`, which every hook of the process shares, under a key "
+                        f"(`{ktxt[:70]}`) that does not contain the loader's typechecker: code instrumented for one typechecker is reused by a hook installed with another, "
+                        "and then cached on disk under that other hook's tag", construct=f"checker-blind shared memo {label}")
+    ctx.counters["shared_keyed_stores_by_loader"] = n
